@@ -375,9 +375,12 @@ class Check(PropCheck):
             got = e_attr.getAttribute(key)
             if lk in BIN:
                 # boolean attribute: presence is what is read; an empty / missing value reads as True
-                ok = (got is False) if not present else (got is True or got == val)
-                if key != lk and present:
-                    ok = ok or got == val
+                if not present:
+                    ok = got is False
+                elif val:
+                    ok = got == val                       # an optionally-valued boolean attribute keeps its value
+                else:
+                    ok = got is True or (key != lk and got == val)
             else:
                 ok = got == val
             if not ok:
